@@ -126,7 +126,7 @@ def shard(ctx):
     while not ctx.out_of_time():
         rng = ctx.rng(i)
         i += ctx.nshards
-        w = workload.draw(rng, kinds=("isa", "casc", "corpus", "mut", "isamut", "macro", "deep", "chain"), weights=(2, 5, 2, 2, 1, 3, 4, 2))
+        w = workload.draw(rng, kinds=("isa", "casc", "corpus", "mut", "isamut", "macro", "deep", "chain", "ifs"), weights=(2, 5, 2, 2, 1, 3, 4, 2, 1))
         ctx.count("kind:" + w["kind"])
         results = []
         bad = False
